@@ -11,7 +11,8 @@
 (***************************************************************************)
 EXTENDS GT
 
-CONSTANTS Ds, Rs, Offs, NSamples, Seeds
+CONSTANTS Ds, Rs, Offs, NSamples, Seeds,
+          BigN       \* large sample counts (size-dependent branches: block-wise drawing, chunking), real generator only
 
 n == Len(hist)
 Init == heap = <<>> /\ hist = <<>>
@@ -23,6 +24,7 @@ Next ==
          \/ \E s0 \in 1..2, r0 \in 1..NumR(p), c0 \in 1..NumD(p) : ASample(1, 2, "stream", "onehot", s0, r0, c0, 0)
          \/ \E sd \in Seeds, ns \in NSamples : ASample(1, ns, "key", "int", 0, 0, 0, sd)
          \/ \E sd \in Seeds : ASample(1, 20000, "stat", "int", 0, 0, 0, sd)
+         \/ \E ns \in BigN : NumR(p) * NumD(p) <= 4 /\ hist[1].a.ci = 0 /\ ASample(1, ns, "key", "int", 0, 0, 0, 7)
 
 Done == n = 2
 Inv_Export == Export(Done)
